@@ -370,6 +370,11 @@ def e4(chk, op):
                     for cal in resolve_callees(repo, fi, c.func):
                         callee_keys.add(cal.key)
                 only_cache = bool(callee_keys) and all(key.startswith("ceos_alos2.sar_image.caching") for key in callee_keys)
+                if not callee_keys and not any(isinstance(x, ast.Call) for st_ in node.body for x in ast.walk(st_)) \
+                        and not any(isinstance(x, ast.Subscript) and effects.is_mapper_expr(repo, fi, x.value) for st_ in node.body for x in ast.walk(st_)):
+                    # nothing is called and no file is read inside the try: the handler cannot swallow the error of a damaged file
+                    chk.ok("C18-E4", where, f"except {cname}: guards a plain lookup ({short(node.body[0], 40)}), no parsing inside")
+                    continue
                 if only_cache:
                     prod = op.g.reachable(callee_keys) & {"ceos_alos2.sar_image.io:read_metadata", "ceos_alos2.sar_image.io:parse_chunk"}
                     only_cache = not prod
